@@ -13,7 +13,7 @@ def decoder_for(codec):
 
 
 def gen_stream_workload(r, max_values=4, small=False, force_codec=None, allow_f2=None,
-                        constraints=False, constructed_default=False, variants=True):
+                        constraints=False, constructed_default=False, variants=True, scale=True):
     codec = force_codec or r.choice(CODEC_CHOICES)
     cfg = U.GenCfg()
     cfg.max_depth = r.choice([1, 2, 3, 3]) if not small else r.choice([1, 2])
@@ -45,6 +45,13 @@ def gen_stream_workload(r, max_values=4, small=False, force_codec=None, allow_f2
         cfg.allow_exp_prim = allow_f2
     desc = U.gen_desc(r, cfg)
     nv = r.randrange(1, max_values + 1)
+    if scale and not small and not constraints and 'chunk' not in codec and r.random() < 0.03:
+        # shapes that composition rarely reaches: wide records, long collections, many alternatives,
+        # deep tag stacks, deep nesting
+        sdesc, svalue = U.gen_scale(r)
+        w = {'desc': sdesc, 'values': [svalue] * min(nv, 2), 'codec': codec, 'decoder': decoder_for(codec),
+             'use_spec': True, 'open_types': False, 'scale': True}
+        return w, cfg
     big = (not small and r.random() < 0.08)
     if codec.endswith(':150') or codec.endswith(':1000'):
         big = r.random() < 0.6       # fragments with long-form lengths need strings beyond the chunk size
@@ -135,6 +142,8 @@ def count_run(ctr, cons, st, conf, wl):
     inc('codec.%s' % wl.codec_name.split(':')[0])
     if wl.w.get('variant'):
         inc('codec.ber-variant-forms')
+    if wl.w.get('scale'):
+        inc('probe.scale_shape')
     inc('spec.%s' % ('with' if wl.use_spec else 'without'))
     if conf.get('threshold') is not None:
         inc('knob.threshold.%s' % conf['threshold'])
